@@ -9,7 +9,10 @@ replayable counterexample.  Never counted as proved.
 """
 import argparse
 import ast
+import contextlib
 import copy
+import io
+import signal
 import importlib
 import itertools
 import json
@@ -26,6 +29,14 @@ from pyvc.types import Contract, Lemma
 
 class Undefined(Exception):
     pass
+
+
+class RtTimeout(BaseException):
+    pass
+
+
+def _alarm(_s, _f):
+    raise RtTimeout()
 
 
 def forall(f, *bounds):
@@ -148,7 +159,7 @@ def to_runtime(val, ty):
         return int(val)
     if ty.kind in ("real", "float"):
         return float(val)
-    if ty.kind == "obj":
+    if ty.kind in ("obj", "str"):
         return val
     return bool(val)
 
@@ -206,9 +217,21 @@ def check_once(reg, c, raw_args, variants=("compiled", "py_func")):
         if not pre_ok:
             return None         # generator produced an input outside the precondition
         try:
-            result = impl(*[env[p] for p in c.param_names])
+            signal.signal(signal.SIGALRM, _alarm)
+            signal.alarm(10)
+            try:
+                with contextlib.redirect_stdout(io.StringIO()):
+                    result = impl(*[env[p] for p in c.param_names])
+            finally:
+                signal.alarm(0)
+        except RtTimeout:
+            fails.append({"clause": "%s.terminates" % c.name, "site": c.key + " [%s]" % vname,
+                          "detail": {"args": jsonable(raw_args), "note": "no answer within 10 s"}})
+            continue
         except Exception as e:      # the real function raised
             exc = type(e).__name__
+            if exc in (getattr(c, "may_raise", None) or []):
+                continue
             if c.raises and exc in c.raises:
                 cond = bool(eval(compile_expr(c.raises[exc]), g))
                 if not cond:
